@@ -338,6 +338,9 @@ func (u *Unit) specIdent(st *State, name string, env *SpecEnv) *Val {
 				if isSentinel(c) {
 					return u.sentinel(st, c)
 				}
+				if v := u.constPkgVar(st, c); v != nil {
+					return v
+				}
 				h := u.heapGet(st, "V!"+c.Pkg().Path()+"."+c.Name(), sortOf(c.Type()))
 				return u.fromScalar(st, app("select", h, "0"), c.Type())
 			}
@@ -517,18 +520,25 @@ func (u *Unit) specCall(st *State, e *SExpr, env *SpecEnv, q *bool) *Val {
 			return boolVal(has)
 		}
 		return v
+	case "unwrap": // unwrap(e): the error wrapped by a fmt.Errorf("%w") value (nil if none)
+		return &Val{T: types.Universe.Lookup("error").Type(), S: app(u.wrapsFn(), ev(0).S)}
+	case "errText": // errText(e): e.Error()
+		return &Val{T: types.Typ[types.String], S: app(u.errTextFn(), ev(0).S)}
+	case "lower": // lower(s): strings.ToLower(s) (uninterpreted, with distribution facts from the fmt.Errorf model)
+		lf := u.d.fun("fn!strings.ToLower", []string{SStr}, SStr)
+		return &Val{T: types.Typ[types.String], S: app(lf, ev(0).S)}
 	case "errorsIs": // errorsIs(e, target): the same uninterpreted relation the code model of errors.Is uses
 		a, b := ev(0), ev(1)
 		uf := u.d.fun("fn!errors.Is", []string{SInt, SInt}, SBool)
 		return boolVal(app(uf, a.S, b.S))
 	case "errorsAs": // errorsAs(e, "net.Error")
 		a := ev(0)
-		uf := u.d.fun("fn!errors.As!"+args[1].Name, []string{SInt}, SBool)
+		uf := u.d.fun("fn!errors.As!"+u.asTypeName(env, args[1].Name), []string{SInt}, SBool)
 		return boolVal(app(uf, a.S))
 	case "errorsAsVal":
 		a := ev(0)
-		uf := u.d.fun("fn!errors.AsVal!"+args[1].Name, []string{SInt}, SInt)
-		return &Val{T: types.NewInterfaceType(nil, nil), S: app(uf, a.S)}
+		uf := u.d.fun("fn!errors.AsVal!"+u.asTypeName(env, args[1].Name), []string{SInt}, SInt)
+		return &Val{T: u.resolveType(env.pkg, args[1].Name), S: app(uf, a.S)}
 	case "purecall": // purecall("(net.Error).Timeout", "bool", args...): result 0 of a functional pure library call
 		var sorts, terms []string
 		for i := 2; i < len(args); i++ {
@@ -665,4 +675,9 @@ func (u *Unit) specEnvLocal(st *State, scopePos token.Pos, loopN int) *SpecEnv {
 		}
 	}
 	return &SpecEnv{names: names, oldNames: u.entryParams, old: st.old, pkg: u.pkg, scopePos: scopePos, loopN: loopN, what: fmt.Sprintf("%s loop %d invariant", u.name, loopN)}
+}
+
+// asTypeName: the canonical name of an errors.As target type (the code model uses types.TypeString).
+func (u *Unit) asTypeName(env *SpecEnv, name string) string {
+	return types.TypeString(u.resolveType(env.pkg, name), nil)
 }
